@@ -201,6 +201,8 @@ def entry_of(name):
     reprs = {"L": "AdjacencyList", "M": "AdjacencyMap", "X": "AdjacencyMatrix", "E": "EdgeList",
              "WI": "AdjacencyListWeighted<isize>", "WU": "AdjacencyListWeighted<usize>"}
     entry, rep, shape, x, y, cb, t = parts
+    if entry == "seq":
+        return "%s::seq" % reprs[rep], "call_sequence"
     shape_c = shape if shape.startswith("map") else "contiguous"
     inr = ("in0", "inlast")
     arg = "in_range" if (x in inr and y in inr) else "x=%s,y=%s" % (x, y)
@@ -229,17 +231,22 @@ def select_programs(names, tier, seed):
     # unchecked fast path hides: nothing is there to be rejected), at 0 / 2 simulated CPUs; every conversion
     for i, n in enumerate(names):
         parts = n.split("/")
+        if parts[0] == "seq":
+            continue
         if parts[0].startswith("from_") or (parts[3] in ("in0", "inlast") and parts[4] in ("in0", "inlast")
                                             and parts[5] == "cb0" and parts[6] in ("t0", "t2")):
             chosen.add(i)
     stride = 7
     off = seed % stride
-    chosen.update(range(off, len(names), stride))
+    chosen.update(i for i in range(off, len(names), stride) if not names[i].startswith("seq/"))
+    # generated call sequences are the slowest programs under Miri: a rotating 1/20 of them in quick
+    seqs = [i for i, n in enumerate(names) if n.startswith("seq/")]
+    chosen.update(seqs[seed % 20::20])
     return sorted(chosen)
 
 
 def threaded_programs(names):
-    return [i for i, n in enumerate(names) if n.split("/")[6] != "t0"]
+    return [i for i, n in enumerate(names) if n.split("/")[6] != "t0" and not n.startswith("seq/")]
 
 
 def write_replay(pid, seed, f, flags):
